@@ -17,7 +17,7 @@ DECIDES = ('USBDevice, by exact last-assignment-wins evaluation of every driver 
            'USBTokenDetector (every filter_by_address setting): (e) every site raising interface.new_frame is guarded '
            'exactly by end-of-packet (~rx_active) and latched PID == SOF (0b0101, PID register = rx_data[0:4]); (f) the '
            'same site writes interface.frame, whole, from the 11-bit token register, in the same domain, and nothing '
-           'later overrides it; (g) the strobe lasts one cycle (unconditional earlier clear); (h) the token register is '
+           'later overrides it; (g) the strobe lasts one cycle (unconditional earlier clear) and no later assignment overrides the raise; (h) the token register is '
            'assembled LSB first: bits 0..7 from the first payload byte, bits 8..10 from bits 0..2 of the second, each '
            'captured on the rx_valid edge that advances the FSM, and the reporting state is entered only that way. ')
 NOT_DECIDED = ('sequences of SOFs (the induction over histories), PID check nibble / CRC5 validation of the SOF (C01, C30), '
@@ -235,14 +235,16 @@ def check_detector(ctx, tag, **kw):
         f = max(same, key=lambda a: a.order) if same else None
         later = [g for g in fdrv if f is not None and g.order > f.order and g.state in (None, r.state)
                  and not any((a, not p) in ats for a, p in atomset(expanded(ir, g.guard)))]
-        ok = f is not None and f.domain == r.domain and f.lhs.op == 'sig' and f.rhs.op == 'sig' and f.rhs.w == 11 \
-            and fw == 11 and not later
+        sb = src_bits(f.rhs, 11) if f is not None else [None]
+        freg = sb[0][0] if sb[0] is not None and sb[0][0] != 'const' else None
+        ok = f is not None and f.domain == r.domain and f.lhs.op == 'sig' and freg is not None and \
+            sb == [(freg, k) for k in range(11)] and fw == 11 and not later
         ctx.ob('C21.frame-with-strobe', C + site + '.frame', ok, f.loc if f is not None else r.loc,
                'the site raising new_frame must also load the whole 11-bit interface.frame from the token register in '
                'the same clock domain, and no later assignment may override it: %s' % (
                    [q.fmt(x) for x in ([f] if f is not None else fdrv) + later]))
-        if f is not None and f.rhs.op == 'sig':
-            regs.add(f.rhs.args[0].name)
+        if ok:
+            regs.add(freg)
         # (g)
         if r.domain == 'comb':
             ok = True
@@ -336,8 +338,14 @@ def check_device(ctx, tag, strobe_domain, frame_only_with_strobe, **kw):
     INC = {'1 + ' + MF, '(1 + %s)[0:%d]' % (MF, ir.signals[MF].w or 3)}
     loc = lambda s: ir.drivers(s, exact=True)[0].loc
 
-    def rhs_of(w):
-        return ev.norm(w.rhs).canon() if w is not None and w.lhs.op == 'sig' and w.domain != 'comb' else None
+    def value_of(w, env):
+        """The expression register-assignment w loads under env (Mux on a decidable condition resolved)."""
+        if w is None or w.lhs.op != 'sig' or w.domain == 'comb' or not isinstance(w.rhs, E):
+            return None
+        e = ev.norm(w.rhs)
+        while e.op == 'mux':
+            e = e.args[1] if ev.bval(e.args[0], env) else e.args[2]
+        return e
 
     def describe(w):
         return 'holds' if w is None else q.fmt(w)
@@ -348,9 +356,10 @@ def check_device(ctx, tag, strobe_domain, frame_only_with_strobe, **kw):
 
         def frame_ok(env):
             w = ev.winner(FN, env)
-            r = rhs_of(w)
+            v = value_of(w, env)
+            r = v.canon() if v is not None else None
             if sof and not eq:
-                good = r == FRAME and w.rhs.w == 11
+                good = r == FRAME and v.w == 11
             else:                       # stored == received: loading it again is a no-op
                 good = w is None or r in (FRAME, FN)
             return None if good else describe(w)
@@ -369,13 +378,14 @@ def check_device(ctx, tag, strobe_domain, frame_only_with_strobe, **kw):
 
         def micro_ok(env):
             w = ev.winner(MF, env)
-            r = rhs_of(w)
+            v = value_of(w, env)
+            r = v.canon() if v is not None else None
             if not sof:
                 good = w is None or r == MF
             elif eq:
                 good = r in INC
             else:
-                good = w is not None and w.lhs.op == 'sig' and w.domain != 'comb' and q.is_zero(w.rhs)
+                good = v is not None and q.is_zero(v)
             return None if good else describe(w)
         why = ev.for_all(base, micro_ok)
         want = 'hold' if not sof else ('become microframe_number + 1' if eq else 'be cleared')
@@ -397,7 +407,8 @@ def check_device(ctx, tag, strobe_domain, frame_only_with_strobe, **kw):
             return 'new_frame = 1'
         for reg in (FN, MF):
             w = ev.winner(reg, env)
-            if w is not None and rhs_of(w) != reg:
+            v = value_of(w, env)
+            if w is not None and (v is None or v.canon() != reg):
                 return describe(w)
         return None
     why = None if frame_only_with_strobe else ev.for_all({SOF: False, EQ: False}, stale_ok)
